@@ -44,6 +44,13 @@ struct C08 : RBase {
     k.max_depth = 2; k.top_statements = (int)r.range(1, 4); k.functions = (int)r.range(1, 2); k.objects = false; k.returns = false; k.loop_max_iter = 3;
     return k;
   }
+  // a value returned at top level from a call: the callee runs to its own end first
+  std::vector<std::vector<json>> extra_units(Rng& r, const json&, GenProgram&) const override {
+    std::vector<std::vector<json>> U; if (!r.chance(0.4)) return U;
+    switch (r.below(3)) { case 0: U.push_back({json{{"k", "return"}, {"e", call("looper", {ilit(r.range(1, 5))})}}}); break; case 1: U.push_back({json{{"k", "return"}, {"e", call("failing", {ilit(1)})}}}); break; default: U.push_back({json{{"k", "return"}, {"e", call("deep", {ilit(3)})}}}); break; }
+    U.push_back({print({slit("after top-level return "), call("ov", {ilit(1)})})});
+    return U;
+  }
   void extra_statements(Rng& r, json& ast, GenProgram& p) const override {
     json& F = ast["funcs"];
     F.push_back(func("loc", {{"a", "bool"}}, "bool", {iff(var("a", "bool"), {let("x", ilit(1)), let("y", slit("set"))}), print({slit("loc:"), isnull(var("x")), isnull(var("y", "str"))}), ret(isnull(var("x")))}));
@@ -57,6 +64,8 @@ struct C08 : RBase {
       F.push_back(func("catches", {{"n", "int"}}, "int", {blk, ret(var("x"))})); }
     { json loop{{"k", "for"}, {"n", "k"}, {"a", ilit(1)}, {"b", var("n")}, {"step", nullptr}, {"dir", ""}}; loop["body"] = json::array({let("acc", bin("+", var("acc"), var("k"))), iff(bin(">", var("acc"), ilit(5), "bool"), {ret(var("acc"))})});
       F.push_back(func("looper", {{"n", "int"}}, "int", {let("acc", ilit(0)), loop, ret(bin("-", ilit(0), var("acc")))})); }
+    // break / continue outside any loop of the function's own context do nothing, also when the caller is inside a loop
+    F.push_back(func("stray", {{"n", "int"}}, "int", {iff(bin(">", var("n"), ilit(1), "bool"), {json{{"k", "break"}}}), iff(bin(">", var("n"), ilit(2), "bool"), {json{{"k", "continue"}}}), print({slit("after stray "), var("n")}), ret(bin("*", var("n"), ilit(2)))}));
     // the nesting depth at which a pooled context is re-entered differs from the depth at which it was left
     F.push_back(func("wrapd", {{"n", "int"}}, "int", {ret(call("deep", {var("n")}))}));
     // an error kept by a handler that itself failed must not be visible to a later call
@@ -78,7 +87,16 @@ struct C08 : RBase {
     json& B = ast["body"]; int n = (int)r.range(6, 40);
     for (int i = 0; i < n; ++i) {
       json st;
-      switch (r.below(20)) {
+      switch (r.below(26)) {
+      case 20: { json loop{{"k", "for"}, {"n", "q1"}, {"a", ilit(1)}, {"b", ilit(3)}, {"step", nullptr}, {"dir", ""}}; loop["body"] = json::array({print({slit("stray:"), call("stray", {var("q1")})})}); st = loop; break; }
+      case 21: st = print({call("stray", {ilit(r.range(0, 4))})}); break;
+      // the same function called again while its own arguments are evaluated
+      case 22: st = print({call("ov", {ilit(r.range(0, 9)), call("ov", {ilit(r.range(0, 9)), ilit(r.range(0, 9))})})}); break;
+      case 23: st = print({call("ov", {call("ov", {ilit(1), ilit(2)}), call("ov", {ilit(3), ilit(4)})}), call("shadow", {call("shadow", {var("i0")})})}); break;
+      case 24: st = print({call("loc", {call("loc", {blit(r.chance(0.5))}, "bool")}, "bool"), call("ov", {call("ov", {ilit(5), ilit(6), ilit(7)}), ilit(2), call("ov", {ilit(1), ilit(1), ilit(1)})})}); break;
+      case 25: { // a handler that calls a function with a handler of its own still sees its own error afterwards
+        json hb = json::array(); hb.push_back(print({slit("in handler "), call("catches", {ilit(0)}), slit(" "), json{{"k", "err"}, {"i", 1}, {"t", "str"}}, json{{"k", "err"}, {"i", 3}, {"t", "int"}}}));
+        json h; h["n"] = "MYERR"; h["body"] = hb; json b; b["k"] = "begin"; b["body"] = json::array({json{{"k", "raise"}, {"n", "MYERR"}}}); b["handlers"] = json::array({h}); st = b; break; }
       case 16: st = print({call("wrapd", {ilit(r.pick(std::vector<long>{0, 1, 100, 253, 254, 255}))})}); break;
       case 17: st = print({slit("lasterr:"), call("lasterr", {ilit(0)}, "str")}); break;
       case 18: st = print({slit("lasterr2:"), call("lasterr", {ilit(r.range(0, 1)), ilit(0)}, "str")}); break;
